@@ -16,6 +16,7 @@ import (
 	"bytes"
 	"os/exec"
 	"path/filepath"
+	"regexp"
 	"encoding/json"
 	"errors"
 	"fmt"
@@ -72,9 +73,9 @@ func c13Real(d, sym string) string {
 	case strings.HasPrefix(sym, "sink"):
 		return fmt.Sprintf("cat >> %s/%s.out; exit %c", d, sym, sym[4])
 	case strings.HasPrefix(sym, "quit"): // reads one line, then exits with the digit: stops reading early
-		return fmt.Sprintf("read l; echo \"$l\" >> %s/%s.out; exit %c", d, sym, sym[4])
+		return fmt.Sprintf("IFS= read -r l; printf '%%s\\n' \"$l\" >> %s/%s.out; exit %c", d, sym, sym[4])
 	case strings.HasPrefix(sym, "slow"): // the same, but lingers before it exits
-		return fmt.Sprintf("read l; echo \"$l\" >> %s/%s.out; sleep 0.4; exit %c", d, sym, sym[4])
+		return fmt.Sprintf("IFS= read -r l; printf '%%s\\n' \"$l\" >> %s/%s.out; sleep 0.4; exit %c", d, sym, sym[4])
 	case strings.HasPrefix(sym, "head"):
 		return fmt.Sprintf("head -n 1 >> %s/%s.out", d, sym)
 	case sym == "nap":
@@ -579,10 +580,16 @@ func c13RunBin(cs *c13Case) (obs c13Obs) {
 		return obs
 	}
 	var errb bytes.Buffer
-	args := []string{cs.Raw}
+	var args []string
 	if cs.NL != "" {
-		args = []string{"-N", cs.NL, cs.Raw}
+		args = append(args, "-N", cs.NL)
 	}
+	if cs.OM != "" && cs.OMVia == "vars" {
+		args = append(args, "-v", "OUTPUTMODE="+cs.OM)
+	} else if cs.OM != "" {
+		args = append(args, "-o", cs.OM)
+	}
+	args = append(args, cs.Raw)
 	cmd := exec.Command(c13Goawk, args...)
 	cmd.Stdout = f
 	cmd.Stderr = &errb
@@ -818,20 +825,28 @@ func c13Run(cs *c13Case) (obs c13Obs) {
 
 type c13SpecStream struct {
 	kind string // file cmd rd
+	sym  string // the file / command it stands for (several streams can stand for one file: one per spelling)
 	log  string
 	rest string // rd: unread
 }
 
 type c13Spec struct {
 	Stdout   string
+	Stderr   string            // what the program wrote to /dev/stderr
 	Files    map[string]string
 	CmdOut   map[string]string // sink*.out and snap_*.out contents
 	Rets     []string          // per executed op: "" (not checked) or the canonical return
+	Opens    []string          // the calls of Config.OpenFile the history stands for: T|A|R ":" file — `>` truncates once per open stream
 	Outcome  string
 	EarlyExit bool // the history uses a command that stops reading early (oracle only: EPIPE timing is not modelled)
 	F25Risk  bool // a |-command that writes to the shared stdout was alive while the program wrote to stdout
 	EchoLive int  // max number of stdout-writing commands alive at once
 	Executed int
+	// Two streams (two spellings) open on ONE file at the same time, one of them writing: what the file holds then depends on
+	// when each stream's buffer is handed to the OS (and, for `>`, on each descriptor's own offset) — the property says
+	// nothing about it. The content of such a file, and what is read from it, is not judged (returns of close / fflush, the
+	// other destinations and the sequence of opens still are).
+	Shared map[string]bool
 }
 
 func c13Early(n string) bool {
@@ -846,14 +861,14 @@ func c13Line(s string) (string, string) {
 }
 
 func c13EvalSpec(cs *c13Case) c13Spec {
-	sp := c13Spec{Files: map[string]string{"f3": c13Old3}, CmdOut: map[string]string{}, Outcome: "ok0"}
+	sp := c13Spec{Files: map[string]string{"f3": c13Old3}, CmdOut: map[string]string{}, Outcome: "ok0", Shared: map[string]bool{}}
 	if cs.Init != nil {
 		sp.Files = map[string]string{}
 		for n, c := range cs.Init {
 			sp.Files[n] = c
 		}
 	}
-	open := map[string]*c13SpecStream{}
+	open := map[string]*c13SpecStream{} // by stream key: the name as written
 	var order []string
 	eff := c13Eff(cs)
 	echoAlive := func() int {
@@ -871,9 +886,19 @@ func c13EvalSpec(cs *c13Case) c13Spec {
 		}
 		sp.Stdout += c
 	}
-	closeOne := func(n string) string {
-		s := open[n]
-		delete(open, n)
+	// others: is the file open under ANOTHER name (writer: only writing streams count)?
+	others := func(key, sym string, writerOnly bool) bool {
+		for k, s := range open {
+			if k != key && s.sym == sym && (s.kind == "file" || (s.kind == "rd" && !writerOnly)) {
+				return true
+			}
+		}
+		return false
+	}
+	closeOne := func(key string) string {
+		s := open[key]
+		n := s.sym
+		delete(open, key)
 		switch s.kind {
 		case "cmd":
 			if strings.HasPrefix(n, "sink") {
@@ -896,13 +921,14 @@ loop:
 			continue // an assignment: no destination involved, no return value
 		}
 		op.C = eff[i] // what the destination must receive: the statement's writes, each as the newline mode transforms it
+		key := c13Key(op)
 		sp.Executed++
 		ret := ""
 		switch op.K {
 		case "p":
 			toStdout(op.C)
 		case "gt", "app", "pipe":
-			if s, ok := open[op.N]; ok {
+			if s, ok := open[key]; ok {
 				if s.kind == "rd" {
 					sp.Outcome = "error:writeToReader"
 					break loop
@@ -918,33 +944,64 @@ loop:
 				if c13Early(op.N) {
 					sp.EarlyExit = true
 				}
-				open[op.N] = &c13SpecStream{kind: "cmd", log: op.C}
-				order = append(order, op.N)
+				open[key] = &c13SpecStream{kind: "cmd", sym: op.N, log: op.C}
+				order = append(order, key)
 				if e := echoAlive(); e > sp.EchoLive {
 					sp.EchoLive = e
 				}
 			case op.N == "-" || op.N == "/dev/stdout":
 				toStdout(op.C)
 			case op.N == "/dev/stderr":
+				sp.Stderr += op.C
+			case op.S == "tslash":
+				// "<file>/" is not a regular file: the open fails and the statement is a run-time error
+				sp.Opens = append(sp.Opens, map[string]string{"gt": "T", "app": "A"}[op.K]+":"+op.N+"/")
+				sp.Outcome = "error:redirect"
+				break loop
 			default:
+				if others(key, op.N, false) {
+					sp.Shared[op.N] = true
+				} else if op.K == "gt" {
+					delete(sp.Shared, op.N) // nobody else has it open and it is cut to nothing: its content is known again
+				}
 				if op.K == "gt" {
 					sp.Files[op.N] = op.C
+					sp.Opens = append(sp.Opens, "T:"+op.N)
 				} else {
 					sp.Files[op.N] += op.C
+					sp.Opens = append(sp.Opens, "A:"+op.N)
 				}
-				open[op.N] = &c13SpecStream{kind: "file", log: op.C}
-				order = append(order, op.N)
+				open[key] = &c13SpecStream{kind: "file", sym: op.N, log: op.C}
+				order = append(order, key)
 			}
 		case "close":
-			if _, ok := open[op.N]; ok {
-				ret = closeOne(op.N)
+			if _, ok := open[key]; ok {
+				ret = closeOne(key)
 			} else {
 				ret = "n-1"
 			}
-		case "ff", "ffa":
+		case "ff":
+			// fflush(name): 0 when the name is an open output stream, else -1 (a reader, a special name, not open)
+			if s, ok := open[key]; ok && s.kind != "rd" {
+				if !c13Early(op.N) {
+					ret = "n0"
+				}
+			} else {
+				ret = "n-1"
+			}
+		case "ffa":
+			ret = "n0"
+			for _, s := range open {
+				if s.kind == "cmd" && c13Early(s.sym) {
+					ret = "" // flushing into a command that has gone may fail
+				}
+			}
 		case "sys":
 			switch {
 			case strings.HasPrefix(op.N, "snap_"):
+				if sp.Shared[op.N[5:]] {
+					sp.Shared[op.N+".out"] = true
+				}
 				sp.CmdOut[op.N+".out"] += sp.Files[op.N[5:]]
 				ret = "n0"
 			case strings.HasPrefix(op.N, "say_"):
@@ -956,20 +1013,24 @@ loop:
 				ret = "n0"
 			}
 		case "gf":
-			s, ok := open[op.N]
+			s, ok := open[key]
 			if ok && s.kind != "rd" {
 				sp.Outcome = "error:readFromWriter"
 				break loop
 			}
 			if !ok {
+				sp.Opens = append(sp.Opens, "R:"+op.N)
+				if others(key, op.N, true) {
+					sp.Shared[op.N] = true
+				}
 				data, exists := sp.Files[op.N]
 				if !exists {
 					ret = "l-1:-"
 					break
 				}
-				s = &c13SpecStream{kind: "rd", rest: data}
-				open[op.N] = s
-				order = append(order, op.N)
+				s = &c13SpecStream{kind: "rd", sym: op.N, rest: data}
+				open[key] = s
+				order = append(order, key)
 			}
 			if s.rest == "" {
 				ret = "l0:-"
@@ -978,6 +1039,9 @@ loop:
 				l, s.rest = c13Line(s.rest)
 				// reading is not this property's subject: with RS = "\n" the record splitter (bufio.ScanLines) drops one CR at the end of a line
 				ret = "l1:" + vh.HxS(strings.TrimSuffix(l, "\r"))
+			}
+			if sp.Shared[op.N] {
+				ret = ""
 			}
 		case "exit":
 			sp.Outcome = fmt.Sprintf("ok%d", op.V)
@@ -1009,6 +1073,8 @@ func c13Outcome(obs *c13Obs) string {
 		return "error:readFromWriter"
 	case strings.Contains(obs.Err, "division by zero"):
 		return "error:divZero"
+	case strings.Contains(obs.Err, "output redirection error"):
+		return "error:redirect"
 	case strings.Contains(obs.Err, errC13Write.Error()):
 		return "error:stdoutWrite"
 	}
@@ -1034,6 +1100,9 @@ func c13RealRets(cs *c13Case, obs *c13Obs) []string {
 }
 
 type c13Verdict struct{ What, Finding, Got, Want string }
+
+// a message of the interpreter on the error stream (printErrorf: one Fprintf, a whole line)
+var c13ErrMsg = regexp.MustCompile(`(error (flushing|closing) "[^\n]*|exec: [^\n]*|signal: [^\n]*)\n`)
 
 // c13Visible: the operations that return something / take part in the model (assignments to OFS, ORS, $0 do not)
 func c13Visible(cs *c13Case) []c13Op {
@@ -1072,7 +1141,7 @@ func c13Oracle(cs *c13Case, obs *c13Obs) (bad []c13Verdict, sp c13Spec) {
 	outcome := c13Outcome(obs)
 	if cs.Fail >= 0 {
 		// the fault clause: a failing write to standard output makes the run fail
-		if len(sp.Stdout) > cs.Fail && sp.Outcome != "error:writeToReader" && sp.Outcome != "error:readFromWriter" && sp.Outcome != "error:divZero" {
+		if len(sp.Stdout) > cs.Fail && !strings.HasPrefix(sp.Outcome, "error:") {
 			if obs.Err == "" {
 				finding := ""
 				if cs.Out == "bufio" || cs.Out == "rec" {
@@ -1114,6 +1183,9 @@ func c13Oracle(cs *c13Case, obs *c13Obs) (bad []c13Verdict, sp c13Spec) {
 		}
 	}
 	for n := range names {
+		if sp.Shared[n] {
+			continue
+		}
 		got, ok := obs.Files[n]
 		if want, ok2 := sp.Files[n]; got != want || ok != ok2 {
 			bad = append(bad, c13Verdict{What: fmt.Sprintf("file %s does not hold (truncated-or-old content) ++ the writes to it in order", n),
@@ -1127,9 +1199,18 @@ func c13Oracle(cs *c13Case, obs *c13Obs) (bad []c13Verdict, sp c13Spec) {
 		if strings.HasPrefix(n, "sink") && obs.Files[n] != want {
 			bad = append(bad, c13Verdict{What: "command " + n + " did not receive exactly the bytes written to it", Got: fmt.Sprintf("%q", obs.Files[n]), Want: fmt.Sprintf("%q", want)})
 		}
-		if strings.HasPrefix(n, "snap_") && obs.Files[n] != want {
+		if strings.HasPrefix(n, "snap_") && obs.Files[n] != want && !sp.Shared[n] {
 			bad = append(bad, c13Verdict{What: "a system() child did not see the bytes written to the file before it started (" + n + ")", Got: fmt.Sprintf("%q", obs.Files[n]), Want: fmt.Sprintf("%q", want)})
 		}
+	}
+	// /dev/stderr: the program's own writes, in order; the interpreter's messages (whole lines, written in one piece) are set aside
+	if got := c13ErrMsg.ReplaceAllString(obs.Stderr, ""); got != sp.Stderr && !sp.EarlyExit {
+		bad = append(bad, c13Verdict{What: "the error stream does not hold exactly the bytes written to /dev/stderr, in order", Got: fmt.Sprintf("%q", obs.Stderr), Want: fmt.Sprintf("%q (plus messages of the interpreter)", sp.Stderr)})
+	}
+	// a name opened with > is truncated ONCE per open stream, >> never truncates: the opens the interpreter asked the OS for
+	if fmt.Sprint(obs.Opens) != fmt.Sprint(sp.Opens) && sp.Outcome == outcome {
+		bad = append(bad, c13Verdict{What: "the files were not opened (T = truncating, A = appending, R = reading) as the history says: once per open stream, under the redirect of its first use",
+			Got: fmt.Sprint(obs.Opens), Want: fmt.Sprint(sp.Opens)})
 	}
 	rets := c13RealRets(cs, obs)
 	vis := c13Visible(cs)
@@ -1172,6 +1253,13 @@ func c13LeanReq(cs *c13Case) string {
 		crlf = "1"
 	}
 	fmt.Fprintf(&b, "runx %s %s %s %s", crlf, buffered, fail, fsArg)
+	omArg := func(om string) string { // the separator of a CSV mode (hex), "-" for the default mode
+		_, sep := c13Mode(om)
+		return vh.HxS(sep)
+	}
+	if cs.OM != "" {
+		fmt.Fprintf(&b, " om:%s", omArg(cs.OM))
+	}
 	stmts := c13Stmts(cs)
 	body := func(i int) string { // P = bare print, P<arg>+<arg>… = print with arguments, F<s> = printf (one write)
 		st := stmts[i]
@@ -1188,6 +1276,8 @@ func c13LeanReq(cs *c13Case) string {
 		switch op.K {
 		case "ofs", "ors", "rec":
 			fmt.Fprintf(&b, " %s:%s", op.K, vh.HxS(op.C))
+		case "om":
+			fmt.Fprintf(&b, " om:%s", omArg(op.C))
 		case "p":
 			fmt.Fprintf(&b, " p:%s", body(i))
 		case "gt", "app", "pipe":
@@ -1648,6 +1738,274 @@ func c13NLCorpus() []c13Case {
 	return res
 }
 
+// ---- widening: spellings of file names, output modes ----------------------------------------------------------------------
+
+// c13WithSpell: the same history with its file names spelled differently. mode 0: every file gets ONE spelling, used by
+// every operation on it (must behave exactly like the canonical name); mode 1: one or two files are addressed under TWO
+// spellings, chosen per operation (two streams on one file); rarely one writing / closing operation names the file with a
+// trailing slash (no regular file: a run-time error for a write, -1 for close / fflush).
+func c13WithSpell(c *vh.Ctx, cs c13Case, mode int) c13Case {
+	r := c.Rng
+	ops := append([]c13Op{}, cs.Ops...)
+	pickS := func() string {
+		if r.Intn(6) == 0 {
+			return ""
+		}
+		return c13Spellings[r.Intn(len(c13Spellings))]
+	}
+	one := map[string]string{}
+	two := map[string][2]string{}
+	for _, f := range []string{"f1", "f2", "f3"} {
+		one[f] = pickS()
+		if one[f] == "" {
+			one[f] = c13Spellings[r.Intn(len(c13Spellings))]
+		}
+	}
+	if mode == 1 {
+		fs := []string{"f1", "f2", "f3"}
+		for k, m := 0, 1+r.Intn(2); k < m; k++ {
+			a, b := pickS(), pickS()
+			for a == b {
+				b = pickS()
+			}
+			two[fs[r.Intn(3)]] = [2]string{a, b}
+		}
+	}
+	for i := range ops {
+		if !c13IsFile(ops[i].N) {
+			continue
+		}
+		ops[i].S = one[ops[i].N]
+		if t, ok := two[ops[i].N]; ok {
+			ops[i].S = t[r.Intn(2)]
+		}
+		if k := ops[i].K; (k == "gt" || k == "app" || k == "close" || k == "ff") && r.Intn(40) == 0 {
+			ops[i].S = "tslash"
+		}
+	}
+	cs.Ops = ops
+	return cs
+}
+
+var c13Modes = []string{"csv", "tsv", "csv", "tsv", "csv separator=;", "tsv separator=,", "csv separator=|", "tsv separator=|", "csv separator=\u00e9"}
+
+// c13CSVValue: a field for CSV output: plain, empty, or one that needs quoting under some separator (contains a separator,
+// a double quote, CR, LF; starts with white space; is \.)
+func c13CSVValue(c *vh.Ctx) string {
+	r := c.Rng
+	switch r.Intn(12) {
+	case 0:
+		return ""
+	case 1:
+		return "\\."
+	case 2:
+		return []string{" ", "\t", "\u00a0", "\u2003", "\v", "\f", "\u0085"}[r.Intn(7)] + string(rune('a'+r.Intn(26)))
+	}
+	pieces := []string{",", ";", "|", "\t", "\"", "\"\"", "\r", "\n", "\r\n", " ", "\u00e9", "\\", ".", "'"}
+	var b strings.Builder
+	for k, m := 0, 1+r.Intn(4); k < m; k++ {
+		if r.Intn(5) < 3 {
+			b.WriteByte(byte('a' + r.Intn(26)))
+		} else {
+			b.WriteString(pieces[r.Intn(len(pieces))])
+		}
+	}
+	return b.String()
+}
+
+// c13WithOM: the same history under an output mode: the run starts in a CSV / TSV mode (set through Config.OutputMode, through
+// Vars, or by an assignment in BEGIN) or switches to one on the way; modes are switched (also back to the default) mid-run;
+// about half of the print statements become `print` with 1–4 arguments that need quoting
+func c13WithOM(c *vh.Ctx, cs c13Case, binary bool) c13Case {
+	r := c.Rng
+	mode := func() string {
+		if r.Intn(5) == 0 {
+			return ""
+		}
+		return c13Modes[r.Intn(len(c13Modes))]
+	}
+	var ops []c13Op
+	switch r.Intn(4) {
+	case 0:
+		cs.OM, cs.OMVia = c13Modes[r.Intn(len(c13Modes))], "config"
+		if binary {
+			cs.OMVia = "opt"
+		}
+	case 1:
+		cs.OM, cs.OMVia = c13Modes[r.Intn(len(c13Modes))], "vars"
+	case 2:
+		ops = append(ops, c13Op{K: "om", C: c13Modes[r.Intn(len(c13Modes))]})
+	}
+	for _, op := range cs.Ops {
+		if r.Intn(8) == 0 {
+			ops = append(ops, c13Op{K: "om", C: mode()})
+		}
+		if c13IsPrint(op.K) && op.F != "fmt" && r.Intn(2) == 0 {
+			op.F, op.A = "print", nil
+			for a, m := 0, 1+r.Intn(4); a < m; a++ {
+				op.A = append(op.A, c13CSVValue(c))
+			}
+		}
+		ops = append(ops, op)
+	}
+	cs.Ops = ops
+	return cs
+}
+
+// c13Widen: force < 0: the treatments at random (about half of the histories stay as they are); 0: spellings, 1: output mode, 2: both
+func c13Widen(c *vh.Ctx, cs c13Case, force int) c13Case {
+	r := c.Rng
+	spell, om := force == 0 || force == 2, force == 1 || force == 2
+	if force < 0 {
+		spell, om = r.Intn(10) < 3, r.Intn(10) < 3
+	}
+	if spell {
+		cs = c13WithSpell(c, cs, r.Intn(5)/3) // 3 in 5 consistent, 2 in 5 two spellings
+	}
+	if om {
+		cs = c13WithOM(c, cs, false)
+	}
+	return cs
+}
+
+// c13WideCorpus: fixed histories of the two families
+func c13WideCorpus() []c13Case {
+	var res []c13Case
+	W := func(k, n, s, c string) c13Op { return c13Op{K: k, N: n, S: s, C: c} }
+	X := func(k, n, s string) c13Op { return c13Op{K: k, N: n, S: s} }
+	outs := []string{"plain", "bufio", "rec"}
+	// one spelling used consistently: write, close, read back, close, write again (truncates again), flush, look, close
+	for si, sp := range append([]string{""}, c13Spellings...) {
+		res = append(res, c13Case{Out: outs[si%3], Fail: -1, Ops: []c13Op{
+			W("gt", "f1", sp, "first\n"), X("close", "f1", sp), X("gf", "f1", sp), X("gf", "f1", sp), X("close", "f1", sp),
+			W("gt", "f1", sp, "second\n"), X("ff", "f1", sp), {K: "sys", N: "snap_f1"}, W("app", "f1", sp, "third\n"), X("close", "f1", sp), X("close", "f1", sp),
+			W("app", "f3", sp, "more\n"), X("close", "f3", sp), W("gt", "f3", sp, "new\n")}})
+		// two spellings of one file are two streams: each is closed on its own; one after the other the file is exact
+		for _, other := range append([]string{""}, c13Spellings...) {
+			if other == sp {
+				continue
+			}
+			res = append(res, c13Case{Out: outs[(si+1)%3], Fail: -1, Ops: []c13Op{
+				W("gt", "f1", sp, "a\n"), X("close", "f1", other), X("close", "f1", sp), W("app", "f1", other, "b\n"), X("ff", "f1", sp), X("ff", "f1", other),
+				X("close", "f1", other), X("gf", "f1", sp), X("gf", "f1", other), X("close", "f1", sp), X("close", "f1", other),
+				W("gt", "f2", sp, "x\n"), W("gt", "f2", other, "y\n"), X("close", "f2", sp), X("close", "f2", other), X("close", "f2", other)}})
+		}
+	}
+	res = append(res, c13Case{Out: "plain", Fail: -1, Ops: []c13Op{W("gt", "f1", "", "a\n"), W("gt", "f1", "tslash", "b\n"), {K: "p", C: "never\n"}}})
+	res = append(res, c13Case{Out: "bufio", Fail: -1, Ops: []c13Op{W("gt", "f1", "", "a\n"), X("close", "f1", "tslash"), X("ff", "f1", "tslash"), W("app", "f2", "tslash", "b\n")}})
+	// output modes: every destination, fields that need quoting, set in every way, switched on the way
+	pr := func(k, n string, a ...string) c13Op { return c13Op{K: k, N: n, F: "print", A: a} }
+	dsts := [][2]string{{"p", ""}, {"gt", "f1"}, {"app", "f3"}, {"pipe", "sink0a"}, {"gt", "/dev/stdout"}, {"gt", "/dev/stderr"}, {"gt", "-"}, {"pipe", "echo1"}}
+	// the smallest ones first: one record to one destination
+	for di, d := range dsts {
+		for vi, via := range []string{"config", "vars", "begin"} {
+			for ai, args := range [][]string{{"a", "b,c"}, {""}, {"x\ty", " z", "q\"q"}} {
+				cs := c13Case{Out: outs[(di+vi+ai)%3], Fail: -1, OM: []string{"csv", "tsv"}[ai%2], OMVia: via, Ops: []c13Op{pr(d[0], d[1], args...)}}
+				if via == "begin" {
+					cs.Ops = []c13Op{{K: "om", C: cs.OM}, cs.Ops[0]}
+					cs.OM, cs.OMVia = "", ""
+				}
+				if d[0] != "p" && d[1] != "-" && !strings.HasPrefix(d[1], "/dev/") && ai == 0 {
+					cs.Ops = append(cs.Ops, c13Op{K: "close", N: d[1]})
+				}
+				res = append(res, cs)
+			}
+		}
+	}
+	k := 0
+	for _, om := range c13Modes {
+		for _, via := range []string{"config", "vars", "begin"} {
+			for _, nl := range []string{"", "crlf"} {
+				var ops []c13Op
+				cs := c13Case{Out: outs[k%3], Fail: -1, NL: nl, OM: om, OMVia: via}
+				if via == "begin" {
+					cs.OM, cs.OMVia = "", ""
+					ops = append(ops, c13Op{K: "om", C: om})
+				}
+				for _, d := range dsts {
+					ops = append(ops, pr(d[0], d[1], "a", "b,c", "d;e|f\tg", "say \"hi\""), pr(d[0], d[1], ""), pr(d[0], d[1], "", ""), pr(d[0], d[1], " lead", "x\r\ny\nz\r", "\\."),
+						c13Op{K: "rec", C: "raw,$0 \"as is\""}, pr(d[0], d[1]), c13Op{K: d[0], N: d[1], F: "printf", A: []string{"p,f\n"}})
+				}
+				ops = append(ops, c13Op{K: "close", N: "f1"}, c13Op{K: "close", N: "sink0a"}, c13Op{K: "om", C: ""}, pr("gt", "f1", "back", "to,default"),
+					c13Op{K: "om", C: c13Modes[(k+3)%len(c13Modes)]}, pr("app", "f1", "and,again", "q\"q"), pr("p", "", "end", ""))
+				cs.Ops = ops
+				res = append(res, cs)
+				k++
+			}
+		}
+	}
+	return res
+}
+
+// c13CSVRoundTrip: the statement of Props.C13.csv_mode_complete on the real code: records printed in a CSV mode (raw newline
+// mode, one-byte separator) to standard output / a file / a command; the bytes that ARRIVED there, read by the Lean
+// specification reader `csvRead`, must be exactly the printed records, field by field, in order
+func c13CSVRoundTrip(c *vh.Ctx) {
+	if !c.HasLean() {
+		return
+	}
+	r := c.Rng
+	n := c.N(60, 800)
+	cases := make([]c13Case, n)
+	seps := make([]string, n)
+	for i := range cases {
+		sep := []string{",", ";", "|", "\t", ":"}[r.Intn(5)]
+		om := "csv separator=" + sep
+		if sep == "\t" {
+			om = "tsv"
+		} else if sep == "," && r.Intn(2) == 0 {
+			om = "csv"
+		}
+		dst := [][2]string{{"p", ""}, {"gt", "f1"}, {"app", "f2"}, {"pipe", "sink0a"}}[r.Intn(4)]
+		cs := c13Case{Out: []string{"plain", "bufio", "rec"}[r.Intn(3)], Fail: -1, NL: "raw", OM: om, OMVia: []string{"config", "vars"}[r.Intn(2)]}
+		for k, m := 0, 1+r.Intn(6); k < m; k++ {
+			op := c13Op{K: dst[0], N: dst[1], F: "print"}
+			for a, w := 0, 1+r.Intn(4); a < w; a++ {
+				op.A = append(op.A, c13CSVValue(c))
+			}
+			cs.Ops = append(cs.Ops, op)
+		}
+		cases[i], seps[i] = cs, sep
+	}
+	obs := make([]c13Obs, n)
+	vh.Parallel(n, func(i int) { obs[i] = c13Run(&cases[i]) })
+	reqs := make([]string, n)
+	arrived := make([]string, n)
+	for i := range cases {
+		for try := 0; try < 3 && strings.Contains(obs[i].Stderr, "WaitDelay expired"); try++ {
+			obs[i] = c13Run(&cases[i])
+		}
+		switch op := cases[i].Ops[0]; op.K {
+		case "p":
+			arrived[i] = obs[i].Stdout
+		case "pipe":
+			arrived[i] = obs[i].Files[op.N+".out"]
+		default:
+			arrived[i] = obs[i].Files[op.N]
+		}
+		reqs[i] = "csvread " + vh.HxS(seps[i]) + " " + vh.HxS(arrived[i])
+	}
+	ans := c.LeanBatch(reqs)
+	for i := range cases {
+		var recs []string
+		for _, op := range cases[i].Ops {
+			var fs []string
+			for _, a := range op.A {
+				fs = append(fs, vh.HxS(a))
+			}
+			recs = append(recs, strings.Join(fs, ","))
+		}
+		want := "ok " + strings.Join(recs, ";")
+		c.Trace()
+		c.Hit("csv-read-back:" + cases[i].Ops[0].K)
+		if ans[i] != want {
+			c.Fail(vh.Failure{Kind: "correspondence", What: "records printed in CSV output mode, read back from the bytes that arrived with the specification reader (csvRead), are not the records printed",
+				Case: &cases[i], Got: fmt.Sprintf("arrived %q, read as %s", arrived[i], ans[i]), Want: want})
+		}
+	}
+	c.Note(fmt.Sprintf("%d histories of CSV-mode prints read back with the Lean specification reader (csv_mode_complete on the real output)", n))
+}
+
 func main() { vh.Main("C13", runC13) }
 
 func runC13(c *vh.Ctx) {
@@ -1658,7 +2016,10 @@ func runC13(c *vh.Ctx) {
 		"a run-time error (also placed before EVERY operation position of a history); print statements in every form (bare print of $0, print " +
 		"with 1–3 arguments, printf with arguments, printf with a literal format) with OFS / ORS / $0 assigned along the way and values that " +
 		"contain, start with and end in CR, LF, CR LF, judged write by write (each piece of a print is one write; in CRLF mode each write has its " +
-		"CR LF pairs read as LF and every LF delivered as CR LF); names are re-used so that one name meets several redirects; non-trivial = the history writes to at least two " +
+		"CR LF pairs read as LF and every LF delivered as CR LF); x spelling of the file names (canonical absolute path, /./, //, /../w/, a leading /., through a symbolic link, " +
+		"a trailing slash; one spelling per file used consistently, or two spellings of one file in one history; never a relative name) x output mode (default / csv / tsv / " +
+		"with a separator, set by Config.OutputMode+CSVOutput, by Vars, by -o / -v on the binary, by an assignment in BEGIN, switched and switched back mid-run) with print " +
+		"arguments that need quoting (separator, double quote, CR, LF, leading white space, \\., empty), judged against an encoder of its own; names are re-used so that one name meets several redirects; non-trivial = the history writes to at least two " +
 		"destinations or closes/re-opens one")
 	var cases []c13Case
 	if c.ReplayFile != "" {
@@ -1680,6 +2041,17 @@ func runC13(c *vh.Ctx) {
 	} else {
 		cases = c13Corpus()
 		cases = append(cases, c13NLCorpus()...)
+		cases = append(cases, c13WideCorpus()...)
+		// every corpus history also with each file under one non-canonical spelling, and under an output mode
+		for k, base := range c13Corpus() {
+			if len(base.Prev) > 0 && k%6 != 0 {
+				continue
+			}
+			cases = append(cases, c13WithSpell(c, base, 0))
+			if base.Fail < 0 {
+				cases = append(cases, c13WithOM(c, base, false))
+			}
+		}
 		cases = append(cases, c13F25Witness())
 		if bd, err := os.MkdirTemp("", "c13bin_"); err == nil {
 			defer os.RemoveAll(bd)
@@ -1690,6 +2062,9 @@ func runC13(c *vh.Ctx) {
 				// the command line's -N mode: print statements to standard output only, through the binary
 				for i, n := 0, c.N(12, 60); i < n; i++ {
 					cs := c13RandomNL(c, false)
+					if i%2 == 1 {
+						cs = c13WithOM(c, cs, true)
+					}
 					var ops []c13Op
 					for _, op := range cs.Ops {
 						if c13IsSet(op.K) || op.K == "p" || op.K == "exit" || ((op.K == "gt" || op.K == "app") && (op.N == "-" || op.N == "/dev/stdout")) {
@@ -1698,7 +2073,7 @@ func runC13(c *vh.Ctx) {
 					}
 					cs.Ops = append(ops, c13Op{K: "p", F: "print", A: []string{"end\r"}})
 					sp := c13EvalSpec(&cs)
-					b := c13Case{Out: "binary", Fail: -1, NL: cs.NL, Raw: c13RenderOpt(&cs, "", false), Want: sp.Stdout, Bin: "ok"}
+					b := c13Case{Out: "binary", Fail: -1, NL: cs.NL, OM: cs.OM, OMVia: cs.OMVia, Raw: c13RenderOpt(&cs, "", false), Want: sp.Stdout, Bin: "ok"}
 					fmt.Sscanf(sp.Outcome, "ok%d", &b.Exit)
 					bin = append(bin, b)
 				}
@@ -1708,10 +2083,20 @@ func runC13(c *vh.Ctx) {
 		}
 		nCorpus := len(cases)
 		for i, n := 0, c.N(300, 4000); i < n; i++ {
-			cases = append(cases, c13Random(c, true))
+			cases = append(cases, c13Widen(c, c13Random(c, true), -1))
 		}
 		for i, n := 0, c.N(300, 4000); i < n; i++ {
-			cases = append(cases, c13RandomNL(c, i%3 == 0))
+			cases = append(cases, c13Widen(c, c13RandomNL(c, i%3 == 0), -1))
+		}
+		// the two widened families on their own: every history under a spelling treatment / an output mode
+		for i, n := 0, c.N(300, 3000); i < n; i++ {
+			var base c13Case
+			if i%2 == 0 {
+				base = c13Random(c, true)
+			} else {
+				base = c13RandomNL(c, i%3 == 0)
+			}
+			cases = append(cases, c13Widen(c, base, i%3))
 		}
 		nFree := len(cases) - nCorpus
 		// the run ends before every operation position
@@ -1723,6 +2108,7 @@ func runC13(c *vh.Ctx) {
 			} else {
 				base = c13RandomNL(c, i%4 == 1)
 			}
+			base = c13Widen(c, base, -1)
 			sw := c13EndSweep(base, i)
 			cases = append(cases, sw...)
 			nSweep += len(sw)
@@ -1734,6 +2120,7 @@ func runC13(c *vh.Ctx) {
 			if i%3 == 2 {
 				base = c13RandomNL(c, false)
 			}
+			base = c13Widen(c, base, -1)
 			total := len(c13EvalSpec(&base).Stdout)
 			for k := 0; k <= total; k++ {
 				for _, out := range []string{"plain", "bufio", "rec"} {
@@ -1786,8 +2173,8 @@ func runC13(c *vh.Ctx) {
 		var reqs []string
 		var idx []int
 		for i := range cases {
-			if cases[i].Raw != "" || cases[i].Bin != "" || c13EvalSpec(&cases[i]).EarlyExit {
-				continue // fixed programs, the binary, and early-exit commands (EPIPE timing) are judged by the oracle only
+			if cases[i].Raw != "" || cases[i].Bin != "" || c13EvalSpec(&cases[i]).EarlyExit || c13Mixed(&cases[i]) {
+				continue // fixed programs, the binary, early-exit commands (EPIPE timing) and two spellings of one file are judged by the oracle only
 			}
 			reqs = append(reqs, c13LeanReq(&cases[i]))
 			idx = append(idx, i)
@@ -1870,6 +2257,42 @@ func runC13(c *vh.Ctx) {
 				}
 			}
 		}
+		if cs.OM != "" {
+			c.Hit("output-mode:at start " + strings.Fields(cs.OM)[0] + " via " + cs.OMVia)
+		} else {
+			c.Hit("output-mode:at start default")
+		}
+		spelled := false
+		for _, op := range cs.Ops {
+			if op.K == "om" {
+				w := "default"
+				if f := strings.Fields(op.C); len(f) > 1 {
+					w = f[0] + " with separator"
+				} else if len(f) == 1 {
+					w = f[0]
+				}
+				c.Hit("output-mode:assigned in BEGIN " + w)
+			}
+			if c13IsFile(op.N) && op.S != "" {
+				spelled = true
+				c.Hit("file-name-spelling:" + op.S + " " + op.K)
+			}
+		}
+		switch {
+		case cs.Raw != "" || cs.Bin != "":
+		case c13Mixed(cs):
+			c.Hit("names:two spellings of one file (or a trailing slash) in one history")
+		case spelled:
+			c.Hit("names:each file under one non-canonical spelling")
+		default:
+			c.Hit("names:canonical only")
+		}
+		for k, st := range c13Stmts(cs) {
+			if st != nil && st.CSV {
+				quoted := strings.Contains(st.Writes[0], "\"")
+				c.Hit(fmt.Sprintf("csv-record:to %s, %d fields, quoting %v", cs.Ops[k].K, min(len(st.Args), 4), quoted))
+			}
+		}
 		c.Hit(fmt.Sprintf("earlier-executes-on-same-interpreter:%d", len(cs.Prev)))
 		if cs.Bin != "" {
 			c.Hit("binary-stdout:" + cs.Bin)
@@ -1884,6 +2307,9 @@ func runC13(c *vh.Ctx) {
 		c.Hit("outcome:" + c13Outcome(&obs[i]))
 		if sp.F25Risk {
 			c.Hit("child-alive-while-stdout-written(plain writer)")
+		}
+		if len(sp.Shared) > 0 {
+			c.Hit("names:two streams open on one file at once (its content is not judged)")
 		}
 		for _, v := range bad {
 			c.Fail(vh.Failure{Kind: "oracle", What: v.What, Finding: v.Finding, Case: cs, Got: v.Got, Want: v.Want})
@@ -1905,4 +2331,7 @@ func runC13(c *vh.Ctx) {
 		}
 	}
 	_ = sort.Strings
+	if c.ReplayFile == "" {
+		c13CSVRoundTrip(c)
+	}
 }
